@@ -20,10 +20,23 @@ def float_cases(seed, n):
     out = []
     u = 2.0 ** -53
     while len(out) < n:
-        fam = ["classic", "collinear-ulp", "random-ulp", "scaled", "exact-collinear"][len(out) % 5]
+        fam = ["classic", "collinear-ulp", "random-ulp", "scaled", "exact-collinear", "mixed-magnitude"][len(out) % 6]
         if fam == "classic":
             i, j = r.randrange(0, 64), r.randrange(0, 64)
             pts = [(0.5 + i * u, 0.5 + j * u), (12.0, 12.0), (24.0, 24.0)]
+        elif fam == "mixed-magnitude":
+            # three points t*(p, q) of one line through the origin (or a lattice point) whose parameters t differ by
+            # up to 2^200, one ordinate moved by an ulp: the exact determinant needs far more than 128 bits
+            p, q = r.randrange(1, 1 << 20), r.randrange(-(1 << 20), 1 << 20)
+            ts = [r.randrange(1, 1 << 30) * 2.0 ** r.choice([-100, -70, -40, -10, 0, 10, 40, 70, 100]) for _ in range(3)]
+            if r.randrange(4) == 0:
+                ts[0] = 0.0
+            pts = [[t * p, t * q] for t in ts]
+            if r.randrange(5):
+                i, w = r.randrange(3), r.randrange(2)
+                if pts[i][w] != 0:
+                    pts[i][w] = ulps(pts[i][w], r.choice([-2, -1, 1, 2]))
+            pts = [tuple(x) for x in pts]
         elif fam in ("collinear-ulp", "scaled", "exact-collinear"):
             x0, y0 = r.randrange(-1000, 1000), r.randrange(-1000, 1000)
             dx, dy = r.randrange(-50, 51), r.randrange(-50, 51)
@@ -55,7 +68,7 @@ def float_cases(seed, n):
 
 
 def float_pipe(ctx, verdict, cases, name="orientx"):
-    obs = list(vlib.run_driver(ctx, "orientx", cases))
+    obs = list(vlib.run_driver(ctx, "orientx", cases, for_tlc=False))
     exprs, sigs = [], []
     for c, o in zip(cases, obs):
         if o["ev"] != "ok":
@@ -78,12 +91,12 @@ PIPES = {"orient": ec.pipe("orient"), "orientx": float_pipe}
 
 def run(ctx, verdict):
     ec.family(ctx, verdict, "orient", nontrivial=lambda c: c["a"] != c["b"])
-    n = 400 if ctx.quick else 6000
+    n = 480 if ctx.quick else 6000
     cases = float_cases(ctx.seed, n)
     vlib.note_cases(ctx, cases)
     float_pipe(ctx, verdict, cases)
     ctx.coverage_extra["float_tier"] = dict(observations=n, checker="Apalache 0.58 on ExactGeom!Orient with exact integers",
-                                            families=["classic", "collinear-ulp", "random-ulp", "scaled", "exact-collinear"])
+                                            families=["classic", "collinear-ulp", "random-ulp", "scaled", "exact-collinear", "mixed-magnitude"])
     ctx.assumptions += ["grid tier exhaustive for the configured N; float tier is a seeded sample of near-collinear "
                         "triples (5 families, magnitudes 2^-300..2^300), each decided exactly by Apalache",
                         "float64 -> integer scaling by a common power of two is exact (python Fractions)"]
